@@ -52,6 +52,8 @@ class Built:
         # derived through an operation on pool members: its parameters were computed by the library
         # (possibly along different code paths depending on the parents' caches), not supplied by the caller
         self.derived = any(getattr(p, "derived", False) for p in parents)
+        # lazy caches the constructor left empty: only these may be dropped later (a legal miss)
+        self.empty_at_build = {a for a in LAZY_ATTRS if a in matrix.__dict__ and matrix.__dict__[a] is None}
 
 
 def build_base(cls, n, seed, opt):
@@ -360,7 +362,9 @@ class MatrixMachine:
                 a, b = self.pool[i].m, self.pool[j].m
                 try:
                     if a == b and a.shape[0] is not None and b.shape[0] is not None:
-                        if not np.array_equal(np.asarray(a.array), np.asarray(b.array)):
+                        xa, xb = np.asarray(a.array, dtype=float), np.asarray(b.array, dtype=float)
+                        # dense arrays of implicit matrices are computed numerically: equal up to rounding
+                        if xa.shape != xb.shape or not np.allclose(xa, xb, rtol=1e-9, atol=1e-9 * (1 + np.abs(xb).max())):
                             self._viol("equal-but-different-arrays", f"equal-but-different-arrays:{type(a).__name__}",
                                        f"pool objects {i} and {j} ({type(a).__name__}) compare equal but their dense arrays differ")
                             return
@@ -391,6 +395,10 @@ class MatrixMachine:
                     pass
                 elif kind == "composite" and isinstance(e, (ValueError, TypeError)):
                     pass  # constructor precondition not met by these pool members
+                elif kind in ("scalar", "div", "neg", "T", "inv", "sqrt", "matmat") and isinstance(e, (ValueError, TypeError)):
+                    # an algebraic operation the class hierarchy rejects (e.g. a negative multiple of a nested
+                    # positive-definite block-diagonal matrix): algebra is C10's subject, not immutability
+                    self.probe_op_rejected = getattr(self, "probe_op_rejected", 0) + 1
                 else:
                     self._viol("op-raised", f"op-raised:{kind}:{type(e).__name__}", f"operation {op} raised {type(e).__name__}: {e}; history {ctx}")
                     return
@@ -520,7 +528,7 @@ class MatrixMachine:
         elif kind == "drop":
             attr = op[2]
             m = a.m
-            if attr in m.__dict__ and m.__dict__[attr] is not None and self._droppable(m, attr):
+            if attr in m.__dict__ and m.__dict__[attr] is not None and attr in a.empty_at_build and self._droppable(m, attr):
                 m.__dict__[attr] = None
                 self.lazy_drops += 1
         elif kind == "write":
@@ -531,7 +539,10 @@ class MatrixMachine:
         """A lazy cache entry the constructor would have left None (so dropping it is a legal miss)."""
         from mici import matrices as M
 
-        if attr in ("_inv", "_transpose", "_sqrt", "_hash", "_capacitance_matrix"):
+        if attr in ("_inv", "_transpose", "_sqrt", "_hash", "_capacitance_matrix", "_eigval", "_eigvec", "_factor", "_lu_and_piv"):
+            if attr in ("_eigval", "_eigvec"):
+                # the pair is computed together; drop both or none
+                return False
             return True
         if attr == "_array":
             return isinstance(m, M.ImplicitArrayMatrix)
